@@ -224,10 +224,15 @@ func (f *File) SubnetByLocation(l *Location, fam netutil.AddrFamily) (n netip.Pr
 	if n, ok = locSubnets[locKey]; ok {
 		// First lookup in location map.
 		return n, nil
-	} else if l.ASN, ok = f.countryTopASNs[l.Country]; ok {
+	}
+
+	// Do not write the top ASN into l, since l is shared with the IP cache and
+	// with the other users of the request's location data.
+	var topASN ASN
+	if topASN, ok = f.countryTopASNs[l.Country]; ok {
 		// Technically, if there is an entry in countryTopASNs then that entry
 		// also always exists in topASNSubnets, but let's be defensive about it.
-		if n, ok = locSubnets[newLocationKey(l.ASN, CountryNone, "")]; ok {
+		if n, ok = locSubnets[newLocationKey(topASN, CountryNone, "")]; ok {
 			return n, nil
 		}
 	}
